@@ -6,6 +6,9 @@ pub mod c05;
 pub mod c07;
 pub mod c08;
 pub mod c09;
+pub mod c10;
+pub mod c13;
+pub mod c20;
 
 pub fn run(prop: &str, tier: &str) -> i32 {
     match prop {
@@ -17,6 +20,9 @@ pub fn run(prop: &str, tier: &str) -> i32 {
         "C07" => c07::run(tier),
         "C08" => c08::run(tier),
         "C09" => c09::run(tier),
+        "C10" => c10::run(tier),
+        "C13" => c13::run(tier),
+        "C20" => c20::run(tier),
         _ => {
             eprintln!("unknown property {}", prop);
             3
